@@ -239,6 +239,8 @@ type ggen struct {
 	seg    *capnp.Segment // scratch message for capnp.Ptr / Struct / List values
 	msg    *capnp.Message
 
+	sparse bool // favour nil pointers, nil / empty slices, empty strings
+
 	members map[string]int
 	nNoGo   int
 	nOOR    int
@@ -325,8 +327,20 @@ func (g *ggen) fill(v reflect.Value, depth int, nonNil bool) {
 	case reflect.Float64:
 		v.SetFloat(genF64(r))
 	case reflect.String:
+		if g.sparse && r.Chance(1, 3) {
+			v.SetString("")
+			return
+		}
 		v.SetString(string(g.bytes()))
 	case reflect.Slice:
+		if g.sparse && r.Chance(1, 3) {
+			if r.Bool() {
+				v.Set(reflect.Zero(t))
+			} else {
+				v.Set(reflect.MakeSlice(t, 0, 0))
+			}
+			return
+		}
 		if t.Elem().Kind() == reflect.Uint8 {
 			switch r.Intn(8) {
 			case 0:
@@ -357,7 +371,7 @@ func (g *ggen) fill(v reflect.Value, depth int, nonNil bool) {
 		}
 		v.Set(s)
 	case reflect.Ptr:
-		if !nonNil && r.Chance(1, 5) {
+		if !nonNil && (r.Chance(1, 5) || g.sparse && r.Chance(2, 5)) {
 			v.Set(reflect.Zero(t))
 			return
 		}
@@ -554,6 +568,36 @@ func (g *ggen) poisonInactive(v reflect.Value, only string) {
 				continue
 			}
 			g.fill(f, 0, false)
+		}
+	}
+}
+
+// allocEmbedded allocates every nil embedded pointer reachable through mapped,
+// active fields, so that the value says something about every field it maps.
+func allocEmbedded(v reflect.Value) {
+	switch v.Kind() {
+	case reflect.Ptr:
+		if v.Type() == tClient || v.IsNil() {
+			return
+		}
+		allocEmbedded(v.Elem())
+	case reflect.Slice:
+		if v.Type().Elem().Kind() == reflect.Uint8 {
+			return
+		}
+		for i := 0; i < v.Len(); i++ {
+			allocEmbedded(v.Index(i))
+		}
+	case reflect.Struct:
+		if isOpaque(v.Type()) {
+			return
+		}
+		ti := infoOf(v.Type())
+		for name, p := range ti.fields {
+			f := fieldAt(v, p, true)
+			if ti.active(v, name) {
+				allocEmbedded(f)
+			}
 		}
 	}
 }
